@@ -98,9 +98,11 @@ def audit(tag, mol, warns, found, rep, complete_res):
                 checks.append((("NE2",), 2))
             if rn == "TRP":
                 checks.append((("NE1",), 1))
+            if rn == "LYS":          # built under --protonate-all only (`prot` below is false otherwise): the ammonium group carries three hydrogens
+                checks.append((("NZ",), 3))
             if rn != "PRO" and not any(a.terminal == "N+" for a in atoms):
                 checks.append((("N",), 1))
-            REG = {"N": 2, "NE": 2, "NH1": 1, "NH2": 1, "ND1": 2, "NE2": 2 if rn == "HIS" else 1, "ND2": 1, "NE1": 2}
+            REG = {"N": 2, "NE": 2, "NH1": 1, "NH2": 1, "ND1": 2, "NE2": 2 if rn == "HIS" else 1, "ND2": 1, "NE1": 2, "NZ": 1}
             def regular(names):
                 for a in atoms:
                     if a.name in names:
@@ -108,7 +110,7 @@ def audit(tag, mol, warns, found, rep, complete_res):
                         if nbh != REG.get(a.name, nbh):
                             return False
                 return True
-            if not regular(("N", "NE", "NH1", "NH2", "ND1", "NE2", "ND2", "NE1")):
+            if not regular(("N", "NE", "NH1", "NH2", "ND1", "NE2", "ND2", "NE1", "NZ")):
                 irregular.add((key[0], key[1]))
                 continue
             for names, want in checks:
